@@ -126,14 +126,16 @@ class ArchiveScanner:
             bidHex, sep, suffix = fileName.partition("-")
             bid = bytes.fromhex(bidHex[0:2] + bidHex[3:5] + bidHex[6:])
 
-            # Validate entry in caching db. Delete entry if stat has changed.
-            # The database will clean the 'refs' table automatically.
+            # Validate entry in caching db. Delete entry and its references if
+            # stat has changed.
             self.__db.execute("SELECT stat FROM files WHERE bid=? AND arch=?",
                                 (bid, self.__archiveKey))
             cachedStat = self.__db.fetchone()
             if cachedStat is not None:
                 if cachedStat[0] == st: return bid
                 self.__db.execute("DELETE FROM files WHERE bid=? AND arch=?",
+                    (bid, self.__archiveKey))
+                self.__db.execute("DELETE FROM refs WHERE bid=? AND arch=?",
                     (bid, self.__archiveKey))
 
             # read audit trail
